@@ -24,50 +24,69 @@ def run(tier, seed, ck=None):
     ck.bounds.update({'bit positions': '0..255, one obligation each', 'scalar limbs': 'all 2^256 limb vectors'})
     kernels.prove(ck, 'scalar', ['FromMontgomery'], tier)
     paths = [p for p in r.paths if p['end'] == 'return']
-    ck.ground('C14.paths', 'Bits has exactly one path and it returns (no data-dependent branch, no panic)', len(r.paths) == 1 and len(paths) == 1)
-    p = paths[0]
-    bits = p['obs']['bits']['f']
-    ck.ground('C14.len', 'result has 256 entries', len(bits) == 256, 'len=%d' % len(bits))
-    # N = sfrom(pack(S))
+    ck.ground('C14.paths', 'every path of Bits returns (no panic for any limb vector); %d path(s)' % len(r.paths), len(paths) == len(r.paths) and len(paths) >= 1,
+              str([(p['end'], p.get('panic')) for p in r.paths if p['end'] != 'return'][:2]))
     apps = [n for n in r.nodes if n['op'] == 'app' and n['n'] == 'sfrom']
     ck.ground('C14.from', 'exactly one FromMontgomery application, on the receiver limbs', len(apps) == 1)
+    if len(apps) != 1:
+        raise ValueError('Bits does not obtain the canonical value through one FromMontgomery call (%d applications)' % len(apps))
     nid = apps[0]['id']
-    low = BVLower(r)
-    prelude = low.emit(bits + [nid] + p['pc'])
-    prelude += '\n(assert (bvult n%d %s))' % (nid, bvconst256(N))
-    for c in p['pc']:
-        prelude += '\n(assert n%d)' % c
-    # reachability witness
-    ck.prove('C14.reach', 'harness assumptions are satisfiable', prelude, expect='sat', timeout=30)
-    goals = []
-    for i in range(min(len(bits), 256)):
-        g = '(assert (not (= n%d ((_ zero_extend 7) ((_ extract %d %d) n%d)))))' % (bits[i], i, i, nid)
-        goals.append(('C14.bit%d' % i, 'Bits()[%d] in {0,1} and equals bit %d of the canonical value' % (i, i), g))
-    ans = ck.prove_batch(prelude, goals, timeout=30)
-    bad = [i for i, a in enumerate(ans) if a == 'sat']
-    if bad:
-        i = bad[0]
-        svars = [low.name(x) for x in p['obs']['S']['f']]
-        m, _ = smt.get_model(prelude + '\n' + goals[i][2], ['n%d' % nid] + svars)
-        cases = []
-        if m:
-            cases.append({'kind': 'bits', 'a': '%064x' % (m['n%d' % nid] % N)})
-            # the limbs the solver chose, with their TRUE canonical value (the defect may depend on the Montgomery form)
-            Sm = unlimbs([m[x] for x in svars])
-            if Sm < N:
-                cases.append({'kind': 'bits', 'a': '%064x' % (Sm * pow(R, -1, N) % N)})
+    allbad, cases = [], []
+    reach = 0
+    for p in paths:
+        tagp = 'C14' if len(paths) == 1 else 'C14.path%d' % p['id']
+        bits = p['obs']['bits']['f']
+        ck.ground(tagp + '.len', 'result has 256 entries', len(bits) == 256, 'len=%d' % len(bits))
+        low = BVLower(r)
+        prelude = low.emit(bits + [nid] + p['pc'])
+        prelude += '\n(assert (bvult n%d %s))' % (nid, bvconst256(N))
+        for c in p['pc']:
+            prelude += '\n(assert n%d)' % c
+        if len(paths) == 1:
+            # reachability witness
+            ck.prove(tagp + '.reach', 'harness assumptions are satisfiable', prelude, expect='sat', timeout=30)
+            reach += 1
+        else:
+            res = smt.check(prelude, timeout=30)
+            ck.record(tagp + '.feasible', 'path feasibility (infeasible paths carry no obligation)', res.status, res.solver, res.secs, res.status if res.status in ('sat', 'unsat') else 'sat')
+            if res.status == 'unsat':
+                continue
+            reach += 1
+        goals = []
+        for i in range(min(len(bits), 256)):
+            g = '(assert (not (= n%d ((_ zero_extend 7) ((_ extract %d %d) n%d)))))' % (bits[i], i, i, nid)
+            goals.append((tagp + '.bit%d' % i, 'Bits()[%d] in {0,1} and equals bit %d of the canonical value' % (i, i), g))
+        ans = ck.prove_batch(prelude, goals, timeout=30)
+        bad = [i for i, a in enumerate(ans) if a != 'unsat']
+        if bad:
+            i = bad[0]
+            svars = [low.name(x) for x in p['obs']['S']['f']]
+            m, _ = smt.get_model(prelude + '\n' + goals[i][2], ['n%d' % nid] + svars)
+            if m:
+                cases.append({'kind': 'bits', 'a': '%064x' % (m['n%d' % nid] % N)})
+                # the limbs the solver chose, with their TRUE canonical value (the defect may depend on the Montgomery form)
+                Sm = unlimbs([m[x] for x in svars])
+                if Sm < N:
+                    cases.append({'kind': 'bits', 'a': '%064x' % (Sm * pow(R, -1, N) % N)})
+            # steering: canonical values that exercise the failing position
+            for v in [1 << i, N - 1, (1 << i) | 1]:
+                if v < N:
+                    cases.append({'kind': 'bits', 'a': '%064x' % v})
+            allbad += bad
+    if len(paths) > 1:
+        ck.ground('C14.reach', 'at least one path is feasible', reach >= 1)
+    if allbad:
+        bad = sorted(set(allbad))
         for sp in [1, 2**64, 2**128, 2**191, 5 * 2**64 + 3]:   # scalars whose Montgomery form is sparse / short
             cases.append({'kind': 'bits', 'a': '%064x' % (sp * pow(R, -1, N) % N)})
-        # steering: canonical values that exercise the failing position
-        for v in [1 << i, N - 1, (1 << i) | 1]:
-            if v < N:
-                cases.append({'kind': 'bits', 'a': '%064x' % v})
+        for v in [2**64, 2**128, 2**192, 2**255, 2**64 - 1, 7 * 2**64, 2**192 + 1, 2**128 + 2**10]:   # canonical values with all-zero limbs
+            cases.append({'kind': 'bits', 'a': '%064x' % v})
         path = ck.save_replay({'property': 'C14', 'cases': cases, 'failed_positions': bad})
         ok, out = core.go_test(path)
         if not ok and 'MISMATCH' in out:
-            ck.violation('bits:%s' % ','.join(map(str, bad)), 'Bits() wrong at positions %s; %s' % (bad, [l for l in out.splitlines() if 'MISMATCH' in l][:1]), path)
+            ck.violation('bits:%s' % ','.join(map(str, bad[:8])), 'Bits() wrong at positions %s; %s' % (bad[:16], [l for l in out.splitlines() if 'MISMATCH' in l][:1]), path)
         else:
-            ck.inconclusive.append('solver counterexample at positions %s did not reproduce: %s' % (bad, out[-300:]))
+            ck.inconclusive.append('solver counterexample at positions %s did not reproduce: %s' % (bad[:16], out[-300:]))
     if own:
         from props import hidden
         hf = hidden.run(ck, tier, which=('scalar',))
